@@ -866,6 +866,13 @@ func (p *Program) privateAlloc(o types.Object) bool {
 	if call, isCall := rhs.(*ast.CallExpr); isCall && IsBuiltinCall(p.Info, call, "new") {
 		okAlloc = true
 	}
+	// a struct held by value in the local (x := T{...}): the variable is the allocation; its address is only
+	// ever taken implicitly, for the receivers of the methods checked below
+	if cl, isLit := rhs.(*ast.CompositeLit); isLit {
+		if _, isStruct := p.Info.TypeOf(cl).Underlying().(*types.Struct); isStruct {
+			okAlloc = true
+		}
+	}
 	if !okAlloc {
 		return false
 	}
@@ -1103,4 +1110,152 @@ func (p *Program) freshResult(fn *types.Func) bool {
 	})
 	p.fresh[fn] = ok && n > 0
 	return p.fresh[fn]
+}
+
+// paramCallArgs: for a parameter of a module function (not a method value or function value that escapes), the
+// argument expressions passed for it at every call site of the function in the module. ok is false if o is not
+// such a parameter, the function is exported or used as a value, or has no call site.
+func (p *Program) paramCallArgs(o types.Object) (args []ast.Expr, ok bool) {
+	v, isVar := o.(*types.Var)
+	if !isVar || v.IsField() {
+		return nil, false
+	}
+	fd := p.FuncAt(o.Pos())
+	if fd == nil {
+		return nil, false
+	}
+	pkg := p.PkgOf(fd.Pos())
+	if pkg == nil {
+		return nil, false
+	}
+	idx := paramIndex(pkg.TypesInfo, fd, v)
+	if idx < 0 {
+		// a parameter of a local closure that is only ever called: the arguments of its calls
+		var lit *ast.FuncLit
+		ast.Inspect(fd.Body, func(n ast.Node) bool {
+			if fl, isLit := n.(*ast.FuncLit); isLit && fl.Type.Params != nil {
+				for _, f := range fl.Type.Params.List {
+					for _, nm := range f.Names {
+						if p.Info.Defs[nm] == o {
+							lit = fl
+						}
+					}
+				}
+			}
+			return lit == nil
+		})
+		if lit == nil {
+			return nil, false
+		}
+		holder := p.callOnlyClosure(lit)
+		if holder == nil {
+			return nil, false
+		}
+		li := 0
+		found := -1
+		for _, f := range lit.Type.Params.List {
+			for _, nm := range f.Names {
+				if p.Info.Defs[nm] == o {
+					found = li
+				}
+				li++
+			}
+		}
+		if found < 0 {
+			return nil, false
+		}
+		ast.Inspect(fd.Body, func(n ast.Node) bool {
+			if call, isCall := n.(*ast.CallExpr); isCall && objOf(p.Info, call.Fun) == holder && found < len(call.Args) {
+				args = append(args, call.Args[found])
+			}
+			return true
+		})
+		return args, len(args) > 0
+	}
+	fn := FuncObj(pkg, fd)
+	if fn == nil || fn.Exported() {
+		return nil, false
+	}
+	sig := fn.Type().(*types.Signature)
+	if sig.Variadic() && idx == sig.Params().Len()-1 {
+		return nil, false
+	}
+	escapes := false
+	for _, q := range p.All {
+		for _, f := range q.Syntax {
+			ast.Inspect(f, func(n ast.Node) bool {
+				switch x := n.(type) {
+				case *ast.CallExpr:
+					c := Callee(q.TypesInfo, x)
+					if c != nil && c.Origin() != nil {
+						c = c.Origin()
+					}
+					if c == fn && idx < len(x.Args) {
+						args = append(args, x.Args[idx])
+					}
+				case *ast.Ident:
+					if q.TypesInfo.Uses[x] == types.Object(fn) {
+						// used other than as the function of a call?
+						par := p.Parent(x)
+						if sel, isSel := par.(*ast.SelectorExpr); isSel && sel.Sel == x {
+							par = p.Parent(sel)
+						}
+						if ix, isIx := par.(*ast.IndexExpr); isIx {
+							par = p.Parent(ix) // generic instantiation f[T](...)
+						}
+						if call, isCall := par.(*ast.CallExpr); !isCall || (ast.Unparen(call.Fun) != ast.Expr(x) && !containsNode(call.Fun, x)) {
+							escapes = true
+						}
+					}
+				}
+				return true
+			})
+		}
+	}
+	if escapes || len(args) == 0 {
+		return nil, false
+	}
+	return args, true
+}
+
+func containsNode(root ast.Node, n ast.Node) bool {
+	found := false
+	ast.Inspect(root, func(m ast.Node) bool {
+		if m == n {
+			found = true
+		}
+		return !found
+	})
+	return found
+}
+
+// tokenLits: the Token literals written in root, and the ones that calls of constructor helpers stand for
+// (newToken(kind, span, value) with a body that only builds and returns the literal: the call is replaced by the
+// literal with the arguments in place of the parameters).
+func (p *Program) tokenLits(root ast.Node) []*ast.CompositeLit {
+	var out []*ast.CompositeLit
+	ast.Inspect(root, func(n ast.Node) bool {
+		switch v := n.(type) {
+		case *ast.CompositeLit:
+			if TypeStr(p.Info.TypeOf(v)) == "parser.Token" {
+				out = append(out, v)
+			}
+		case *ast.CallExpr:
+			f := Callee(p.Info, v)
+			if f == nil || f.Pkg() == nil || f.Pkg().Path() != PathParser {
+				return true
+			}
+			sig := f.Type().(*types.Signature)
+			if sig.Results().Len() != 1 || TypeStr(sig.Results().At(0).Type()) != "parser.Token" {
+				return true
+			}
+			if ex := p.ExpandCall(v); ex != nil {
+				if lit := litOf(ex); lit != nil && TypeStr(p.Info.TypeOf(lit)) == "parser.Token" {
+					out = append(out, lit)
+				}
+			}
+		}
+		return true
+	})
+	return out
 }
